@@ -457,11 +457,11 @@ impl GroupConfig {
 
     pub fn rf_over(&self) -> usize {
         // don't prune small groups if:
-        // - there is transformation defined
-        //   (distinct files can become identical after the transform)
-        // - or we're looking for under-replicated files
+        // - we're looking for under-replicated files
         // - or we're looking for unique files
-        if self.transform.is_some() || self.rf_under.is_some() || self.unique {
+        // (With a transformation defined, files are not pre-grouped by size, so there is
+        // nothing to prune early and the requested replication factor applies as usual.)
+        if self.rf_under.is_some() || self.unique {
             0
         } else {
             self.rf_over.unwrap_or(1)
